@@ -95,7 +95,7 @@ Fixpoint eval2 (n : nat) (e : expr) (r : env2) (s : store) (o : list const) {str
       | Op _ => None
       | App f es =>
           (* application of a closure value: operands right to left, then the operator *)
-          let generic :=
+          let generic := fun (_ : unit) =>
             match args es s o with
             | Some (vs, s1, o1) =>
                 match eval2 m f r s1 o1 with
@@ -131,8 +131,8 @@ Fixpoint eval2 (n : nat) (e : expr) (r : env2) (s : store) (o : list const) {str
                          end
                 | _ => None
                 end
-              else generic
-          | _ => generic
+              else generic tt
+          | _ => generic tt
           end
       end
   end.
